@@ -11,3 +11,9 @@ def run(ck):
     ck.out_of_scope += ['atomicity w.r.t. a concurrently running process_request (RwLock semantics)', 'JSON round-trip of Rule (serde)',
                         'filter compilation itself (Rule::init is a symbolic outcome)']
     reload.spec_set_rules(ck, nrules=2 if ck.tier == 'quick' else 3)
+    # replacements that are shorter than, or as long as, the list in force (removing trailing rules, posting the list back, clearing it)
+    reload.spec_set_rules(ck, nrules=1, nlive=2)
+    reload.spec_set_rules(ck, nrules=0, nlive=1)
+    if ck.tier != 'quick':
+        reload.spec_set_rules(ck, nrules=2, nlive=2)
+        reload.spec_set_rules(ck, nrules=2, nlive=3)
